@@ -17,6 +17,8 @@ semantics of the pyparsing constructors used here are a model table (DESIGN 0.4)
     Forward() / f << e    recursion                    ~e / NotAny(e)      negative look-ahead
     FollowedBy(e)         positive look-ahead          stringEnd           end of input
     delimitedList(e, d)   e (Suppress(d) e)*           e("n")              COPY of e with results name n
+    a - b                 sequence with an error stop: once a matched, a failure of b aborts the WHOLE parse
+                          (ParseSyntaxException, not caught by |, Optional, ZeroOrMore) -- Term.stop = index of b
     e.setParseAction(a)   replaces e's actions, in place;  addParseAction appends
 
 Unsupported constructs raise AnalysisError (exit 2); they are never guessed.
@@ -80,12 +82,14 @@ class Term(object):
         self.src = src
         self.labels = []
         self.origin = origin
+        self.stop = None        # for 'and': index of the first element after an error stop (`a - b`), else None
         Term._count[0] += 1
         self.uid = Term._count[0]
 
     def copy(self):
         t = Term(self.kind, self.kids, self.text, self.init, self.body, self.src, self.origin)
         t.kids = self.kids              # children are shared (shallow copy), like pyparsing's copy()
+        t.stop = self.stop
         t.name = self.name
         t.actions = list(self.actions)
         t.labels = []
@@ -170,6 +174,7 @@ class Grammar(object):
         self.whitespace_calls = []      # (call node, method) -- calls that change whitespace handling
         self.opaque_statements = []
         self.helpers = []               # qualified names of helper functions evaluated abstractly
+        self.error_stops = []           # And terms built with `-` (error stop)
         self._self = fi.params[0] if (fi.cls is not None and not fi.is_static and fi.params) else None
         self._extract()
         self._nullable = None
@@ -321,6 +326,8 @@ class Grammar(object):
                 return self._nary('and', l, r, e)
             if isinstance(e.op, ast.BitOr):
                 return self._nary('first', l, r, e)
+            if isinstance(e.op, ast.Sub) and (isinstance(l, Term) or isinstance(r, Term)):
+                return self._nary('and', l, r, e, stop=True)
             raise AnalysisError('unsupported pyparsing operator %s in `%s`' % (type(e.op).__name__, short(e)))
         if isinstance(e, ast.UnaryOp) and isinstance(e.op, ast.Invert):
             return Term('not', [self._term(self._eval(e.operand), e.operand)], src=e)
@@ -330,16 +337,25 @@ class Grammar(object):
             return tuple(self._eval(x) for x in e.elts)
         raise AnalysisError('unsupported expression in grammar builder: `%s`' % short(e))
 
-    def _nary(self, kind, l, r, node):
+    def _nary(self, kind, l, r, node, stop=False):
         lt, rt = self._term(l, node.left), self._term(r, node.right)
         kids = []
-        for t in (lt, rt):
+        stops = []
+        for i, t in enumerate((lt, rt)):
+            if i == 1 and stop:
+                stops.append(len(kids))
             # pyparsing's streamline() merges nested anonymous And/MatchFirst; mirror it for anonymous intermediates
             if t.kind == kind and not t.labels and not t.name and not t.actions and not t.origin:
+                if t.stop is not None:
+                    stops.append(len(kids) + t.stop)
                 kids.extend(t.kids)
             else:
                 kids.append(t)
-        return Term(kind, kids, src=node)
+        out = Term(kind, kids, src=node)
+        if stops:
+            out.stop = min(stops)
+            self.error_stops.append(out)
+        return out
 
     def _external(self, e):
         d = self.idx.dotted_of(self.module, e)
@@ -640,6 +656,227 @@ class Grammar(object):
         self._fix()
         return id(t) in self._first
 
+    # ------------------------------------------------------------------ two-character look-ahead
+    K = 2
+
+    def _fix2(self):
+        """FIRST_2 / FOLLOW_2: sets of strings of length <= 2 (a shorter string means the match / the input may end there;
+        END is one pseudo-character written '\\0')."""
+        if getattr(self, '_first2', None) is not None:
+            return
+        self._fix()
+        E = '\0'
+        K = self.K
+        nodes = self.nodes()
+
+        def cat(a, b):
+            out = set()
+            for x in a:
+                if len(x) >= K or x.endswith(E):
+                    out.add(x[:K])
+                else:
+                    for y in b:
+                        out.add((x + y)[:K])
+            return out
+
+        def local(t, first):
+            k = t.kind
+            if k == 'lit':
+                return {t.text[:K]}
+            if k == 'clit':
+                outs = {''}
+                for ch in t.text[:K]:
+                    outs = {o + c for o in outs for c in {ch.lower(), ch.upper()}}
+                return outs
+            if k == 'word':
+                return set(t.init) | {i + b for i in t.init for b in t.body}
+            if k == 'end':
+                return {E}
+            if k in ('empty', 'not', 'follow'):
+                return {''}
+            if k == 'and':
+                acc = {''}
+                for kid in t.kids:
+                    acc = cat(acc, first[id(kid)])
+                    if not acc:
+                        break
+                return acc
+            if k == 'first':
+                out = set()
+                for kid in t.kids:
+                    out |= first[id(kid)]
+                return out
+            if k == 'opt':
+                return set(first[id(t.kids[0])]) | {''}
+            if k == 'star':
+                body = first[id(t.kids[0])]
+                return {''} | cat(body, {''} | body) if body else {''}
+            if k == 'plus':
+                body = first[id(t.kids[0])]
+                return cat(body, {''} | body)
+            return set(first[id(t.kids[0])])
+        first = {id(t): set() for t in nodes}
+        changed = True
+        while changed:
+            changed = False
+            for t in nodes:
+                f = local(t, first)
+                if f != first[id(t)]:
+                    first[id(t)] = f
+                    changed = True
+        follow = {id(t): set() for t in nodes}
+        follow[id(self.root)] = {E}
+        changed = True
+        while changed:
+            changed = False
+
+            def add(kid, strs):
+                nonlocal changed
+                if not strs <= follow[id(kid)]:
+                    follow[id(kid)] |= strs
+                    changed = True
+            for t in nodes:
+                fl = follow[id(t)]
+                if t.kind == 'and':
+                    for i, kid in enumerate(t.kids):
+                        acc = {''}
+                        for nxt in t.kids[i + 1:]:
+                            acc = cat(acc, first[id(nxt)])
+                        add(kid, cat(acc, fl))
+                elif t.kind in ('star', 'plus'):
+                    body = first[id(t.kids[0])]
+                    add(t.kids[0], cat({''} | body, fl) if fl else set())
+                elif t.kind in ('not', 'follow'):
+                    pass
+                else:
+                    for kid in t.kids:
+                        add(kid, fl)
+        self._first2, self._follow2, self._cat2 = first, follow, cat
+
+    def first2(self, t):
+        self._fix2()
+        return set(self._first2[self._key(t)])
+
+    def follow2(self, t):
+        self._fix2()
+        return set(self._follow2[self._key(t)])
+
+    def parents(self):
+        if getattr(self, '_parents', None) is None:
+            par = {}
+            for t in self.nodes():
+                for i, kid in enumerate(t.kids):
+                    par.setdefault(id(kid), []).append((t, i))
+            self._parents = par
+        return self._parents
+
+    def commit_analysis(self, a):
+        """For an And `a` with an error stop: is the accepted language unchanged by the stop?
+
+        Returns ('nullable-rest', None) when the elements after the stop cannot fail, ('committed', None) when no other
+        derivation can consume text starting like the elements before the stop (two characters of look-ahead: the attempt
+        is the only way on, so aborting instead of backtracking rejects the same strings), or ('conflict', info).
+        """
+        self._fix2()
+        cat = self._cat2
+        rest = a.kids[a.stop:]
+        if all(self.cannot_fail(k) for k in rest):
+            return 'nullable-rest', None
+        lead = {''}
+        for k in a.kids[:a.stop]:
+            lead = cat(lead, self._first2[id(k)])
+        if '' in lead:
+            lead = {''}           # the part before the stop may match nothing: the stop is passed on any text
+
+        def compatible(x, y):
+            return x.startswith(y) or y.startswith(x)
+
+        def hits(alt, ld):
+            return sorted(s_ for s_ in alt for l_ in ld if compatible(s_, l_))[:3]
+
+        def unwrap(t):
+            while t.kind in ('group', 'suppress') and t.kids:
+                t = t.kids[0]
+            return t
+
+        def same_subgrammar(x, y):
+            x, y = unwrap(x), unwrap(y)
+            return x is y or (x.kind == y.kind and x.kids and x.kids is y.kids)
+        conflicts = []
+        seen = set()
+        # work items: (failing node, look-ahead at its start, elements of the enclosing sequence already consumed, look-ahead
+        # after those elements)
+        work = [(a, lead, list(a.kids[:a.stop]) or None, {''})]
+        par = self.parents()
+        while work:
+            x, ld, hist, base = work.pop()
+            key = (id(x), frozenset(ld), tuple(id(h) for h in hist) if hist else None)
+            if key in seen:
+                continue
+            seen.add(key)
+            for p_, i in par.get(id(x), []):
+                k = p_.kind
+                if k == 'first':
+                    for sib in p_.kids[i + 1:]:
+                        body = unwrap(sib)
+                        seq = list(body.kids) if body.kind == 'and' else [body]
+                        if hist and seq and same_subgrammar(seq[0], hist[0]):
+                            # the alternative re-reads exactly what the first consumed element read (same sub-grammar):
+                            # compare what must come next on both sides
+                            alt = {''}
+                            for e_ in seq[1:]:
+                                alt = cat(alt, self._first2[id(e_)])
+                            alt = cat(alt, self._follow2[id(p_)])
+                            txt = {''}
+                            for h in hist[1:]:
+                                txt = cat(txt, self._first2[id(h)])
+                            txt = cat(txt, base)
+                            hit = hits(alt, txt)
+                        else:
+                            hit = hits(cat(self._first2[id(sib)], self._follow2[id(p_)]), ld)
+                        if hit:
+                            conflicts.append(('the later alternative `%s`' % sib.describe(1), hit))
+                    work.append((p_, ld, None, None))
+                elif k in ('opt', 'star', 'plus'):
+                    hit = hits(self._follow2[id(p_)], ld)
+                    if hit:
+                        conflicts.append(('what may follow `%s`' % p_.describe(1), hit))
+                    if k == 'plus':
+                        work.append((p_, ld, None, None))
+                elif k == 'and':
+                    before = p_.kids[:i]
+                    if not before:
+                        work.append((p_, ld, hist, base))
+                    else:
+                        pl = {''}
+                        for b in before:
+                            pl = cat(pl, self._first2[id(b)])
+                        work.append((p_, cat(pl, ld), list(before), ld))
+                elif k in ('not', 'follow'):
+                    conflicts.append(('a look-ahead `%s`' % p_.describe(1), []))
+                else:
+                    work.append((p_, ld, hist, base))
+        if conflicts:
+            return 'conflict', conflicts
+        return 'committed', None
+
+    def cannot_fail(self, t, _depth=0):
+        """Does t match (possibly nothing) on every input?  Look-aheads and stringEnd consume nothing but can fail."""
+        if _depth > 30:
+            return False
+        k = t.kind
+        if k in ('opt', 'star', 'empty'):
+            return True
+        if k == 'lit':
+            return t.text == ''
+        if k == 'and':
+            return all(self.cannot_fail(x, _depth + 1) for x in t.kids)
+        if k == 'first':
+            return any(self.cannot_fail(x, _depth + 1) for x in t.kids)
+        if k in ('group', 'suppress', 'combine', 'forward') and t.kids:
+            return self.cannot_fail(t.kids[0], _depth + 1)
+        return False
+
     # ------------------------------------------------------------ structure helpers
     @staticmethod
     def strip(t, kinds=('forward',)):
@@ -881,6 +1118,17 @@ class Grammar(object):
     # ----------------------------------------------------------------------- matcher
     WS = ' \t\n\r'
 
+    def outcome(self, text, stops=True):
+        """'accept' | 'reject' | 'abort' for the whole grammar on text (parseString semantics: a matching prefix suffices;
+        'abort' = an error stop (`a - b`) was passed and the rest failed: pyparsing raises ParseSyntaxException)."""
+        self._use_stops = stops
+        try:
+            return 'accept' if self.match(self.root, text, 0) is not None else 'reject'
+        except _Abort:
+            return 'abort'
+        finally:
+            self._use_stops = False
+
     def match(self, t, text, pos=0, skip_ws=True, _depth=0):
         """Model of pyparsing's matching of term t on text at pos: end index or None.
 
@@ -919,9 +1167,11 @@ class Grammar(object):
             return pos
         if k == 'and':
             i = pos
-            for kid in t.kids:
+            for n_, kid in enumerate(t.kids):
                 i = self.match(kid, text, i, skip_ws, d)
                 if i is None:
+                    if t.stop is not None and n_ >= t.stop and getattr(self, '_use_stops', False):
+                        raise _Abort()
                     return None
             return i
         if k == 'first':
@@ -1043,6 +1293,10 @@ def show_chars(chars, limit=14):
     if len(rest) > limit:
         rest = rest[:limit] + ['...']
     return ' '.join(parts + rest)
+
+
+class _Abort(Exception):
+    pass
 
 
 def _dedupe(seqs):
